@@ -522,7 +522,8 @@ def s_parse_te(vc):
 # validate_headers: returns normally  =>  the framing fields are unambiguous (RFC 9112 §6.1-6.3, RFC 9110 §5.1)
 
 TOKEN_B = rb"[!#$%&'*+\-.^_`|~0-9a-zA-Z]+"
-NMAX = 3
+import os as _os
+NMAX = int(_os.environ.get("C01_NMAX", "3"))
 
 
 def ci_pattern(lit: bytes) -> bytes:
@@ -552,7 +553,71 @@ def pick(conds, items, default):
     return r
 
 
-@scenario("validate_headers", functions=[V + "validate_headers", V + "parse_content_length", V + "parse_transfer_encoding"], **_regex_opts())
+def te_class(vc, v):
+    """(final coding is chunked, other known coding list) for a Transfer-Encoding value, by the spec patterns"""
+    c = Or(*[in_re(vc, v, te_spec_pattern(L, isinstance(v, (str, SStr)))) for L in TE_CHUNKED])
+    p = Or(*[in_re(vc, v, te_spec_pattern(L, isinstance(v, (str, SStr)))) for L in TE_PLAIN])
+    return c, p
+
+
+def summarise_value_parsers(vc):
+    """parse_content_length / parse_transfer_encoding are replaced by their own contracts (scenarios parse_content_length,
+    parse_transfer_encoding): the caller sees exactly what those contracts promise, nothing more."""
+    from mitmproxy.net.http import validate as VM
+    real_cl, real_te = VM.parse_content_length, VM.parse_transfer_encoding
+    counter = [0]
+
+    def cl(v_, value):
+        if vc.mode == "native":
+            return real_cl(value)
+        as_str = isinstance(value, SStr)
+        strict = in_re(vc, value, CL_STRICT_S if as_str else CL_STRICT_B)
+        rfc = in_re(vc, value, CL_RFC_S if as_str else CL_RFC_B)
+        counter[0] += 1
+        acc = vc.fresh_bool(f"cl_accepted{counter[0]}")
+        vc.assume(Implies(strict, acc))
+        vc.assume(Implies(acc, Or(rfc, endswith(value, "\n" if as_str else b"\n"))))
+        if vc.branch(acc):
+            n = vc.fresh_int(f"cl_value{counter[0]}")
+            vc.assume(Implies(rfc, n == str_to_int(vc, value)))
+            return n
+        vc.raise_(ValueError, "invalid content-length header")
+
+    def te(v_, value):
+        if vc.mode == "native":
+            return real_te(value)
+        c, p = te_class(vc, value)
+        counter[0] += 1
+        if vc.branch(c):
+            k = vc.ex.choose(len(TE_CHUNKED), f"te_result{counter[0]}")
+            vc.assume(in_re(vc, value, te_spec_pattern(TE_CHUNKED[k], isinstance(value, SStr))))
+            return lift(TE_CHUNKED[k])
+        if vc.branch(p):
+            k = vc.ex.choose(len(TE_PLAIN), f"te_result{counter[0]}")
+            vc.assume(in_re(vc, value, te_spec_pattern(TE_PLAIN[k], isinstance(value, SStr))))
+            return lift(TE_PLAIN[k])
+        vc.raise_(ValueError, "unknown transfer-encoding header")
+
+    for mod in ("mitmproxy.net.http.validate", ):
+        vc.summary(mod + ":parse_content_length", cl)
+        vc.summary(mod + ":parse_transfer_encoding", te)
+
+
+def lower_(vc, b):
+    """ASCII case folding of a field name (RFC 9110 §5.1: names are case-insensitive) — bytes.lower(); in proof mode the
+    same uninterpreted idempotent function the engine uses for bytes.lower(), tied to the two framing names by the
+    case-insensitive patterns (scenario option lower_literals)"""
+    if vc.mode == "native":
+        return b.lower()
+    import z3
+    from pyvc import lib
+    return SBytes(lib.uf("lower", z3.StringSort(), z3.StringSort())(lift(b).t))
+
+
+NAME_OPTS = dict(exact_regex=True)
+
+
+@scenario("validate_headers", functions=[V + "validate_headers"], **NAME_OPTS)
 def s_validate(vc):
     kind = vc.case("kind", ["request", "response"])
     n = vc.case("n", list(range(NMAX + 1)))
@@ -561,17 +626,18 @@ def s_validate(vc):
     version = vc.sym_bytes("version")
     status = vc.sym_int("status", lo=100, hi=999) if kind == "response" else None
     msg = mk_message(vc, kind, names, vals, version, status)
+    summarise_value_parsers(vc)
     out = vc.call(V + "validate_headers", msg)
     vc.ensure("raises_only_value_error", out.ok or issubclass(out.raised_type(), ValueError))
-    is_te = [in_re(vc, nm, ci_pattern(b"transfer-encoding")) for nm in names]
-    is_cl = [in_re(vc, nm, ci_pattern(b"content-length")) for nm in names]
+    is_te = [lower_(vc, nm) == b"transfer-encoding" for nm in names]
+    is_cl = [lower_(vc, nm) == b"content-length" for nm in names]
     n_te, n_cl = count(is_te), count(is_cl)
     te_val = pick(is_te, vals, b"") if n else b""
     cl_val = pick(is_cl, vals, b"") if n else b""
-    te_chunked = Or(*[in_re(vc, te_val, te_spec_pattern(L, False)) for L in TE_CHUNKED]) if n else False
-    te_plain = Or(*[in_re(vc, te_val, te_spec_pattern(L, False)) for L in TE_PLAIN]) if n else False
+    te_chunked, te_plain = te_class(vc, te_val) if n else (False, False)
     http11 = version == b"HTTP/1.1"
     nl = Or(*[endswith(x, b"\n") for x in names + vals]) if n else False   # KF-C01-5: `$` accepts a trailing newline
+    no_body_status = Or(And(status >= 100, status <= 199), status == 204) if kind == "response" else False
     if out.ok:
         for i in range(n):
             vc.ensure_kf(f"ok.name_is_token[{i}]", in_re(vc, names[i], TOKEN_B), "KF-C01-5", nl)
@@ -584,12 +650,12 @@ def s_validate(vc):
         if kind == "request":
             vc.ensure("ok.request_te_ends_in_chunked", Implies(n_te >= 1, te_chunked))
         else:
-            vc.ensure("ok.no_te_on_1xx_204", Implies(n_te >= 1, Not(Or(And(status >= 100, status <= 199), status == 204))))
+            vc.ensure("ok.no_te_on_1xx_204", Implies(n_te >= 1, Not(no_body_status)))
     else:
         # completeness (mitmproxy is allowed to be stricter than the RFC, this pins down *how* strict): a message is refused
         # only for one of the reasons of the statement
         names_ok = And(*[in_re(vc, nm, TOKEN_B) for nm in names]) if n else True
         cl_ok = Implies(n_cl >= 1, in_re(vc, cl_val, CL_STRICT_B))
-        te_ok = Implies(n_te >= 1, And(http11, te_chunked if kind == "request" else And(Or(te_chunked, te_plain), Not(Or(And(status >= 100, status <= 199), status == 204)))))
+        te_ok = Implies(n_te >= 1, And(http11, te_chunked if kind == "request" else And(Or(te_chunked, te_plain), Not(no_body_status))))
         good = And(names_ok, n_te <= 1, n_cl <= 1, Not(And(n_te >= 1, n_cl >= 1)), cl_ok, te_ok)
         vc.ensure("refused_only_for_a_stated_reason", Not(good))
